@@ -2,6 +2,7 @@ import Gossamer.Base.Proto
 import Gossamer.Lib.Blake2b
 import Gossamer.Model.C03
 import Gossamer.Lib.C03State
+import Gossamer.Lib.C03Child
 open Gossamer Gossamer.C03
 
 /- line:   `op;op;…`  (ops: put h k v | del h k | clr h p | clrl h p n | snap h | ver h 0|1 | hash h |
@@ -16,6 +17,7 @@ open Gossamer Gossamer.C03
    given to `StoreTrie` (its trie object is the parent of the snapshots `TrieState` hands out). -/
 def step (line : String) : String :=
   if C03S.isStateLine line then C03S.step Blake2b.hash256 line else
+  if C03C.isChildLine line then C03C.step Blake2b.hash256 line else
   let ops := parseLine line
   let H := Blake2b.hash256
   let guardOK := !violatesGuard H St.init ops
